@@ -1561,6 +1561,15 @@ impl Zeroconf {
             // Send out probing queries.
             self.probing_handler();
 
+            // The interval can be changed at run time: 0 disables the check, a
+            // non-zero value enables it again.
+            if self.ip_check_interval == 0 {
+                next_ip_check = 0;
+            } else if next_ip_check == 0 {
+                next_ip_check = now + self.ip_check_interval;
+                self.add_timer(next_ip_check);
+            }
+
             // check IP changes if next_ip_check is reached.
             if now >= next_ip_check && next_ip_check > 0 {
                 next_ip_check = now + self.ip_check_interval;
